@@ -44,11 +44,7 @@ CONFIG = dict(
                   "sys._current_frames() order, module names) to M_Slice.world; f_back is assumed acyclic (CPython)"],
     assumptions=["CPython (sys.implementation.name == 'cpython'); the PyPy branches are not modelled",
                  "frames are pairwise distinct objects (NoDup) and the stack does not change during one extraction"],
-    unproved_legs=["py_slice for arbitrary start/stop/step vs a direct recursive definition: proved only for the shapes the "
-                   "code uses (step -1 with a non-negative start and stop None or >= 0; del l[n:], del l[:-n] for n >= 1); the "
-                   "general function is compared exhaustively with real Python slicing (lengths 0..6, bounds None/-8..8, "
-                   "steps +-1..3) in the correspondence",
-                   "TypeError argument checks of extract_since/extract_until are not modelled"],
+    unproved_legs=["TypeError argument checks of extract_since/extract_until are not modelled"],
     explanation=("Findings F18 (limit with outer on another thread kept the inner side) and F19 (never-started parent "
                  "greenlet cut the stack) were found by this check and are fixed in /repo (cc1578e, 048785c); both shapes are "
                  "part of the generated inputs and of the direct oracle, so a recurrence is a VIOLATION."),
